@@ -85,6 +85,10 @@ def within_one_unit(text, x, P):
 
 def streams(tier, rng):
     bits = values(rng, tier)
+    # subnormal doubles are never thinned out: powers of two down to the smallest one, and a few decimal ones below 1e-308
+    subn = [1 << k for k in range(0, 52, 3)] + [d2b(float(t)) for t in ('1.23456789e-310', '7.5e-315', '9.87654321012345e-309', '4.94e-324', '1e-308', '3e-320')]
+    subn += [b | (1 << 63) for b in subn[:6]]
+    bits = bits + [b for b in subn if b not in set(bits)]
     cases, info = [], {}
     for b in bits:
         c = 'D2S %x 64' % b
@@ -133,7 +137,7 @@ def streams(tier, rng):
 
     # custom formatter
     dcases, dinfo = [], {}
-    for b in bits[:: (3 if tier == 'quick' else 1)]:
+    for b in subn + bits[:: (3 if tier == 'quick' else 1)]:
         x = b2d(b)
         if x != x or x in (float('inf'), float('-inf')):
             continue
@@ -174,7 +178,7 @@ def streams(tier, rng):
                     break
         return res
     yield {'name': 'custom-formatter', 'flavor': 'dtostre', 'cases': dcases, 'model': False, 'oracle': doracle, 'post': dpost, 'nontrivial': lambda c, o: c}
-    yield {'name': 'custom-build-tostr', 'flavor': 'dtostre', 'cases': [c for c in cases if c.startswith('D2S')][::4], 'model': False,
+    yield {'name': 'custom-build-tostr', 'flavor': 'dtostre', 'cases': [c for c in cases if c.startswith('D2S')][::4] + ['D2S %x 64' % b for b in subn], 'model': False,
            'oracle': lambda c, o: ([] if (o.startswith('X') or len(o.split(' ')) != 4 or b2d(info[c][1]) != b2d(info[c][1]) or abs(b2d(info[c][1])) == float('inf')) else
                                    [('custom-digits:ecvt-accuracy' if e.startswith('[ecvt') else 'custom-digits', 'custom build SCPI_DoubleToStr: ' + e) for e in [within_one_unit(vf.unhx(o.split(' ')[1]).decode('latin1'), b2d(info[c][1]), 15)] if e]),
            'nontrivial': lambda c, o: c}
